@@ -10,7 +10,7 @@ Line-protocol encoding of `WVal` as ONE whitespace-free ASCII token (driver ⇄ 
   [v,v]                     list
   {"k":v,"l":w}             dict with str keys (order kept)
   {!"k":v}                  dict that also has non-str keys (only the str-keyed part travels)
-  @Decimal:1;               any other object: type name and truthiness
+  @Decimal:1t;              any other object: type name, truthiness 0/1, then `t`, `f` or `-` (compares equal to True, to False, to neither)
 -/
 namespace Abverif.Wamp.Codec
 
@@ -42,7 +42,7 @@ def render : WVal → List Char
   | .list xs => '[' :: renderL xs ++ [']']
   | .dict kvs => '{' :: renderD kvs ++ ['}']
   | .dictNS kvs => '{' :: '!' :: renderD kvs ++ ['}']
-  | .other ty t => '@' :: ty ++ [':', if t then '1' else '0', ';']
+  | .other ty t e => '@' :: ty ++ [':', if t then '1' else '0', (match e with | some true => 't' | some false => 'f' | none => '-'), ';']
 def renderL : List WVal → List Char
   | [] => []
   | [x] => render x
@@ -126,8 +126,10 @@ def parseVal : Nat → List Char → Option (WVal × List Char)
   | _ + 1, '@' :: cs => do
       let (ty, rest) ← spanUntil ':' cs
       match rest with
-      | '1' :: ';' :: r => pure (.other ty true, r)
-      | '0' :: ';' :: r => pure (.other ty false, r)
+      | t :: e :: ';' :: r =>
+          let tv ← (if t == '1' then some true else if t == '0' then some false else none)
+          let ev ← (if e == 't' then some (some true) else if e == 'f' then some (some false) else if e == '-' then some none else none)
+          pure (.other ty tv ev, r)
       | _ => none
   | _ + 1, '[' :: ']' :: cs => some (.list [], cs)
   | fuel + 1, '[' :: cs => do
